@@ -201,6 +201,12 @@ Definition last_value (k : bytes) (offers : list kv) : option value :=
 Definition last_val (k : bytes) (offers : list kv) : value :=
   match last_value k offers with Some v => v | None => VInvalid end.
 
+Fixpoint lookup (k : bytes) (m : list kv) : option value :=
+  match m with
+  | [] => None
+  | (k', v) :: r => if bytes_eqb k' k then Some v else lookup k r
+  end.
+
 (** Keys a bounded map keeps: the first [limit] distinct valid keys offered. *)
 Definition kept_keys (limit : Z) (offers : list kv) : list bytes :=
   let d := distinct (keys (filter valid offers)) [] in
